@@ -5,11 +5,14 @@
   T10.2  `inv_mod` for `m = s·2^k` (CRT recombination), given the odd-modulus inverter spec   — full
          (+ proved negation for modulus 0: the fixed-width form panics — DESIGN §7 row 8)
   T10.3  `gcd = 2^k · gcd(f, g)` incl. zeros, given the odd-operand gcd spec                   — full
+  T10.4  safegcd: (b) `inv_mod2_62` — full; (c) `jump`: matrix identity, det, no wrap, termination in
+         fuel, gcd preservation for the full-width operands — full
   (further sections are appended below as they are proved)
 -/
 import CB.Lemmas.C10Gcd
+import CB.Lemmas.C10Jump
 namespace CB.P10
-open CB.InvMod2k CB.Gcd
+open CB.InvMod2k CB.Gcd CB.SafeGcd
 
 /-! ## T10.1 — `inv_mod2k`, `inv_mod2k_vartime`, `inv_mod2k_full_vartime` (fixed and boxed) -/
 
@@ -133,5 +136,47 @@ theorem gcd_ct_vartime_agree (og ogv : Nat → Nat → Nat) (w a b : Nat) (H : O
 /-- non-vacuity: `Nat.gcd` satisfies `OddGcdSpec`; gcd(48, 36) = 12 through the reduction -/
 example : OddGcdSpec Nat.gcd 64 ∧ gcdWith Nat.gcd 64 48 36 = 12 :=
   ⟨fun _ _ _ _ _ => rfl, by decide +kernel⟩
+
+
+/-! ## T10.4 — safegcd (src/modular/safegcd.rs) -/
+
+/-- (b) `inv_mod2_62`: for an odd low word the result is in `[0, 2^62)` and inverts it modulo `2^62`. -/
+theorem inv_mod2_62_correct (v : Nat) (rest : List Nat) (hv : v % 2 = 1) :
+    0 ≤ invMod2_62 (v :: rest) ∧ invMod2_62 (v :: rest) < 2 ^ 62 ∧
+    (invMod2_62 (v :: rest) * (v : Int)) % 2 ^ 62 = 1 :=
+  invMod2_62_spec v rest hv
+
+/-- (c) one `jump` on low limbs `fl, gl < 2^62` with `fl` odd or `delta > 0`: the inner loop ends
+    (`steps = 0`) within its fuel of 64 trips; the returned `T` satisfies
+    `T·(fl, gl) = 2^62·(f', g')`, `det T = 2^62`, and both rows have absolute sum `≤ 2^62`, which is the
+    statement that no `i64` shift/multiply/add in the loop wrapped; oddness of the full-width `f`
+    survives the batch. -/
+theorem jump_matrix (f g : List Nat) (delta : Int) (hfl : f.headD 0 < 2 ^ 62) (hgl : g.headD 0 < 2 ^ 62)
+    (hpre : f.headD 0 % 2 = 1 ∨ 0 < delta) :
+    ∃ f' g' : Int,
+      (jump f g delta).2.t00 * (f.headD 0 : Nat) + (jump f g delta).2.t01 * (g.headD 0 : Nat) = 2 ^ 62 * f' ∧
+      (jump f g delta).2.t10 * (f.headD 0 : Nat) + (jump f g delta).2.t11 * (g.headD 0 : Nat) = 2 ^ 62 * g' ∧
+      |(jump f g delta).2.t00| + |(jump f g delta).2.t01| ≤ 2 ^ 62 ∧
+      |(jump f g delta).2.t10| + |(jump f g delta).2.t11| ≤ 2 ^ 62 ∧
+      (jump f g delta).2.t00 * (jump f g delta).2.t11 - (jump f g delta).2.t01 * (jump f g delta).2.t10 = 2 ^ 62 ∧
+      (∀ A B : Int, f.headD 0 % 2 = 1 →
+        (f' + ((jump f g delta).2.t00 * A + (jump f g delta).2.t01 * B)) % 2 = 1) :=
+  jump_spec f g delta hfl hgl hpre
+
+/-- (c) for the full-width operands `F = fl + 2^62·A`, `G = gl + 2^62·B` (any high parts): `T·(F, G)`
+    is exactly divisible by `2^62`; with `F` odd the quotient keeps `F'` odd and
+    `gcd(F', G') = gcd(F, G)`. -/
+theorem jump_preserves_gcd (f g : List Nat) (delta : Int) (hfl : f.headD 0 < 2 ^ 62)
+    (hgl : g.headD 0 < 2 ^ 62) (A B : Int) (hodd : f.headD 0 % 2 = 1) :
+    ∃ F' G' : Int,
+      (jump f g delta).2.t00 * ((f.headD 0 : Nat) + 2 ^ 62 * A) + (jump f g delta).2.t01 * ((g.headD 0 : Nat) + 2 ^ 62 * B) = 2 ^ 62 * F' ∧
+      (jump f g delta).2.t10 * ((f.headD 0 : Nat) + 2 ^ 62 * A) + (jump f g delta).2.t11 * ((g.headD 0 : Nat) + 2 ^ 62 * B) = 2 ^ 62 * G' ∧
+      F' % 2 = 1 ∧
+      Int.gcd F' G' = Int.gcd ((f.headD 0 : Nat) + 2 ^ 62 * A) ((g.headD 0 : Nat) + 2 ^ 62 * B) :=
+  jump_full f g delta hfl hgl A B hodd
+
+/-- non-vacuity: the matrix of one batch for f = 7, g = 12, δ = 1 -/
+example : (jump [7] [12] 1).2.t00 * 7 + (jump [7] [12] 1).2.t01 * 12 = 2 ^ 62 * 1 ∧
+    (jump [7] [12] 1).2.t10 * 7 + (jump [7] [12] 1).2.t11 * 12 = 0 := by decide +kernel
 
 end CB.P10
